@@ -2,7 +2,9 @@
 (* Bounded case generation for Filters: a case is built choice by choice.    *)
 EXTENDS Filters, Json
 
-CONSTANTS Alphabet, MaxRowLen, MaxRows, MaxLenAscii
+CONSTANTS Alphabet, MaxRowLen, MaxRows, MaxLenAscii,
+          Kinds,      \* the case families explored
+          Preds       \* the /Predictor values declared for PNG data
 
 VARIABLES kind, x, geo, tags, opt, stage, pred
 vars == <<kind, x, geo, tags, opt, stage, pred>>
@@ -11,7 +13,9 @@ vars == <<kind, x, geo, tags, opt, stage, pred>>
 Geos == {g \in [cols : 1..MaxRowLen, colors : 1..4] : g.cols * g.colors <= MaxRowLen}
 RowLen(g) == g.cols * g.colors
 
-Init == /\ kind \in {"png", "tiff", "hex", "a85", "chain", "err"}
+AllKinds == {"png", "tiff", "hex", "a85", "chain", "err"}
+AllPreds == 10..15
+Init == /\ kind \in Kinds
         /\ x = <<>> /\ geo = [cols |-> 1, colors |-> 1] /\ tags = <<>> /\ opt = "none" /\ stage = "geo" /\ pred = 0
 
 PickGeo == /\ stage = "geo"
@@ -37,7 +41,7 @@ Finish == /\ stage = "data" /\ Len(x) \in Lens
                          [] kind = "err" -> {"tag5", "rowsize", "badhex", "bad85", "over85"}) : opt' = o
           \* the /Predictor value written in the dictionary: for PNG any of 10..15 - it only says "PNG prediction is in
           \* use"; the filter type of a row is the tag byte in front of it (ISO 32000-1 7.4.4.4), whatever was declared
-          /\ IF kind = "png" THEN \E p \in 10..15 : pred' = p ELSE pred' = (IF kind = "tiff" THEN 2 ELSE 0)
+          /\ IF kind = "png" THEN \E p \in Preds : pred' = p ELSE pred' = (IF kind = "tiff" THEN 2 ELSE 0)
           /\ stage' = "done" /\ UNCHANGED <<kind, x, geo, tags>>
 Next == PickGeo \/ PickRows \/ AddByte \/ Finish
 Spec == Init /\ [][Next]_vars
